@@ -216,6 +216,9 @@ func specLabels(s *rt.Spec) []string {
 	if s.Encl != "" {
 		l = append(l, "encl:"+s.Encl)
 	}
+	if s.Stmt != "" {
+		l = append(l, "stmt:"+s.Stmt)
+	}
 	if s.Paren {
 		l = append(l, "paren")
 	}
